@@ -558,7 +558,9 @@ steps:
 		case ownErr(c.err) != "":
 			out = append(out, ownErr(c.err))
 		case errors.Is(c.err, context.Canceled):
-			out = append(out, "C")
+			// USE and PREPARE run under the CONNECTION's context: when Conn.Close cancels it, exec's select has two ready
+			// arms (ctx.Done -> context.Canceled, c.ctx.Done -> ErrConnectionClosed) and takes either: both say "closed"
+			out = append(out, "X")
 		case ownIsClosedErr(c.err):
 			out = append(out, "X")
 		default:
